@@ -19,7 +19,8 @@ RULE = ("Part 'params': SimulationParameters with 1..6 parameters drawn "
         "finite floats incl. -0.0/subnormals, numpy scalars int32/int64/"
         "float32/float64 and - as a labelled minority - the other widths, "
         "unicode strings, nested lists, sets of hashable scalars, real arrays "
-        "of 1..3 dimensions in eight dtypes, empty arrays), any subset of the "
+        "of 1..3 dimensions in eight dtypes (float arrays may contain +-inf), "
+        "empty arrays), any subset of the "
         "iterable parameters marked unpacked, up to 3 unpacked children (first two, last); "
         "targets to_dict/from_dict, to_json/from_json (two generations), "
         "pickle file.  Part 'results': SimulationResults with such parameters, "
@@ -28,7 +29,8 @@ RULE = ("Part 'params': SimulationParameters with 1..6 parameters drawn "
         "targets to_dict, to_json, save_to_file/load_from_file for .pickle, "
         ".json and no extension with a template embedding scalar/array "
         "parameters, each Result alone.  Part 'filename': template names for "
-        "equal values and for one changed scalar.  non-trivial = the object "
+        "equal values and for one changed scalar (fields '{n}', '{n!s}' or "
+        "'{n!s:>{fw}}').  non-trivial = the object "
         "contains a numpy scalar, array or set AND has >= 1 unpacked "
         "parameter (filename part: >= 2 embedded parameters); distinct = "
         "SHA-1 of the case.")
